@@ -188,6 +188,10 @@ impl Sink {
         self.cur_case = id.to_string();
         self.muted = matches!(&self.focus, Some(f) if f != id);
         if self.muted { return; }
+        // keep the files current: if the implementation crashes or hangs, the last case on disk is the culprit
+        let _ = self.ops.flush();
+        let _ = self.imp.flush();
+        let _ = self.oracle.flush();
         self.cases += 1;
         writeln!(self.ops, "# case {id}").unwrap();
         writeln!(self.imp, "# case {id}").unwrap();
